@@ -393,6 +393,13 @@ func (x *xf) findMutGlobals() {
 				e = p.X
 				continue
 			}
+			// G[k] = v on a package-level map is a write of the map
+			if ix, ok := e.(*ast.IndexExpr); ok {
+				if _, isMap := x.mapType(ix.X); isMap {
+					e = ix.X
+					continue
+				}
+			}
 			break
 		}
 		id, ok := e.(*ast.Ident)
@@ -422,6 +429,12 @@ func (x *xf) findMutGlobals() {
 					}
 				case *ast.IncDecStmt:
 					mark(t.X)
+				case *ast.CallExpr:
+					if (x.builtin(t, "delete") || x.builtin(t, "clear")) && len(t.Args) > 0 {
+						if _, isMap := x.mapType(t.Args[0]); isMap {
+							mark(t.Args[0])
+						}
+					}
 				}
 				return true
 			})
@@ -449,9 +462,43 @@ func (x *xf) capturedIdent(e ast.Expr) *ast.Ident {
 	return nil
 }
 
+// mapElemOf: for G[k] with G a shared (package-level or captured) map variable, the identifier G.
+func (x *xf) mapElemOf(e ast.Expr) *ast.Ident {
+	for {
+		if p, ok := e.(*ast.ParenExpr); ok {
+			e = p.X
+			continue
+		}
+		break
+	}
+	ix, ok := e.(*ast.IndexExpr)
+	if !ok {
+		return nil
+	}
+	if _, isMap := x.mapType(ix.X); !isMap {
+		return nil
+	}
+	return x.capturedIdent(ix.X)
+}
+
+// foreignStructGlobal: id names a package-level variable of this package whose type is a struct type defined in
+// another package (bytes.Reader, bytes.Buffer, strings.Builder, ...) and not one of the modelled ones.
+func (x *xf) foreignStructGlobal(id *ast.Ident) bool {
+	v, ok := x.pkg.TypesInfo.Uses[id].(*types.Var)
+	if !ok || v.IsField() || v.Pkg() != x.pkg.Types || v.Parent() != x.pkg.Types.Scope() || isShimType(v.Type()) {
+		return false
+	}
+	n, ok := v.Type().(*types.Named)
+	if !ok || n.Obj().Pkg() == nil || ownPkgs[n.Obj().Pkg().Path()] {
+		return false
+	}
+	_, isStruct := n.Underlying().(*types.Struct)
+	return isStruct
+}
+
 func (x *xf) localLoc(id *ast.Ident) string {
 	if v, ok := x.pkg.TypesInfo.Uses[id].(*types.Var); ok && x.mutGlobals[v] {
-		return "global " + x.pkg.Name + "." + id.Name
+		return "global " + x.pkg.Name + "." + id.Name + mapMark(v.Type())
 	}
 	// the variable belongs to the function that declares it, whichever literal touches it
 	fn := x.curFn
@@ -627,6 +674,8 @@ func markSkip(e ast.Expr) {
 var inComm = map[ast.Node]bool{}
 var rangeOverMap = map[ast.Node]bool{}
 var appendLoc = map[*ast.CallExpr]string{}
+var delTarget = map[*ast.CallExpr]*ast.Ident{}
+var inPlace = map[*ast.Ident]bool{} // uses of a foreign-struct package-level value that work on it in place
 var rangeOverChan = map[ast.Node]bool{}
 
 func (x *xf) pre(c *astutil.Cursor) bool {
@@ -635,6 +684,33 @@ func (x *xf) pre(c *astutil.Cursor) bool {
 		// append(s, ...): the text of s is taken before s is rewritten
 		if x.builtin(n, "append") && len(n.Args) >= 1 {
 			appendLoc[n] = "slot " + types.ExprString(n.Args[0])
+		}
+		if (x.builtin(n, "delete") || x.builtin(n, "clear")) && len(n.Args) > 0 {
+			if _, isMap := x.mapType(n.Args[0]); isMap {
+				if id := x.capturedIdent(n.Args[0]); id != nil {
+					delTarget[n] = id
+				}
+			}
+		}
+		// G.M(...) with G a package-level value of a struct type from another package and M a pointer method:
+		// the call works on G in place
+		if se, ok := n.Fun.(*ast.SelectorExpr); ok {
+			if id, ok := se.X.(*ast.Ident); ok && x.foreignStructGlobal(id) {
+				if sel := x.pkg.TypesInfo.Selections[se]; sel != nil && sel.Kind() == types.MethodVal {
+					if sig, ok := sel.Obj().Type().(*types.Signature); ok && sig.Recv() != nil {
+						if _, ptr := sig.Recv().Type().(*types.Pointer); ptr {
+							inPlace[id] = true
+						}
+					}
+				}
+			}
+		}
+	case *ast.UnaryExpr:
+		if n.Op == token.AND {
+			if id, ok := n.X.(*ast.Ident); ok && x.foreignStructGlobal(id) {
+				inPlace[id] = true
+			}
+			markSkip(n.X)
 		}
 	case *ast.RangeStmt:
 		// types are looked up before the operand is rewritten
@@ -673,6 +749,9 @@ func (x *xf) pre(c *astutil.Cursor) bool {
 			if id := x.capturedIdent(l); id != nil {
 				skip[id] = true
 			}
+			if id := x.mapElemOf(l); id != nil {
+				skip[id] = true
+			}
 		}
 	case *ast.IncDecStmt:
 		if se := x.written(n.X); se != nil {
@@ -680,10 +759,6 @@ func (x *xf) pre(c *astutil.Cursor) bool {
 		}
 		if id := x.capturedIdent(n.X); id != nil {
 			skip[id] = true
-		}
-	case *ast.UnaryExpr:
-		if n.Op == token.AND {
-			markSkip(n.X)
 		}
 	case *ast.SelectorExpr:
 		// do not wrap struct-valued intermediates: in x.a.b keep x.a raw when it is a struct value
@@ -829,6 +904,13 @@ func (x *xf) post(c *astutil.Cursor) bool {
 			x.needRT = true
 		}
 	case *ast.Ident:
+		if inPlace[n] {
+			// (*vrt.WP(&G, site)): the use is recorded as a write of G and still denotes G itself
+			x.nW++
+			x.needRT = true
+			c.Replace(&ast.ParenExpr{X: &ast.StarExpr{X: vrtCall("WP", &ast.UnaryExpr{Op: token.AND, X: ast.NewIdent(n.Name)}, x.site("global "+x.pkg.Name+"."+n.Name))}})
+			return true
+		}
 		if skip[n] {
 			return true
 		}
@@ -885,6 +967,9 @@ func (x *xf) post(c *astutil.Cursor) bool {
 			if id := x.capturedIdent(l); id != nil && n.Tok != token.DEFINE {
 				ws = append(ws, x.wIdent(id))
 			}
+			if id := x.mapElemOf(l); id != nil {
+				ws = append(ws, x.wIdent(id))
+			}
 		}
 		if len(ws) > 0 {
 			if inBlock(c) {
@@ -922,6 +1007,11 @@ func (x *xf) post(c *astutil.Cursor) bool {
 		case (x.builtin(call, "copy") || x.builtin(call, "delete") || x.builtin(call, "clear")) && len(call.Args) > 0:
 			if se := x.written(call.Args[0]); se != nil && inBlock(c) {
 				c.InsertAfter(x.wStmt(se))
+				x.nW++
+				x.needRT = true
+			}
+			if id, ok := delTarget[call]; ok && inBlock(c) {
+				c.InsertAfter(x.wIdent(id))
 				x.nW++
 				x.needRT = true
 			}
